@@ -286,3 +286,36 @@ func VH_reconsider_block_two_branches() {
 		vReach("stay")
 	}
 }
+
+// C02(5'): InvalidateBlock of an active-chain block when a SIDE block hangs off the invalidated part (a child of an
+// active block at or above the target that is not itself active): that side block descends from the invalid block
+// and must not count as a valid tip - afterwards it is marked invalid, and the tip is the most-work tip among the
+// chains without an invalid block (the target's parent, or the side branch from the fork when that has strictly
+// more work), whatever work the stale side block carries.
+//verif:opts reach=parent,side noverride=chain.go:BlockChain.reorganizeChain:vStubReorganizeChain;blockindex.go:blockIndex.flushToDB:vStubFlushIndex
+func VH_invalidate_with_side_block_above_target() {
+	vSwReset()
+	b := &BlockChain{index: newBlockIndex(nil, &chaincfg.Params{})}
+	common := vMkWorkNodes(b, nil, 2, 1)
+	fork := common[len(common)-1]
+	main := vMkWorkNodes(b, fork, 3, 2)
+	side := vMkWorkNodes(b, fork, 1+vNondetLen("sideLen", 1), 3)
+	stale := vMkWorkNodes(b, main[1], 1, 4)[0] // child of an active block, not active itself
+	b.bestChain = newChainView(main[len(main)-1])
+	k := vNondetLen("target", 1)
+	err := b.InvalidateBlock(&main[k].hash)
+	vAssert(err == nil, "invalidation succeeds")
+	newBase := main[k].parent
+	sideTip := side[len(side)-1]
+	switch c := sideTip.workSum.Cmp(newBase.workSum); {
+	case c > 0:
+		vAssert(b.bestChain.Tip() == sideTip, "the valid side branch has the most work and becomes active")
+		vReach("side")
+	case c < 0:
+		vAssert(b.bestChain.Tip() == newBase, "the parent of the invalidated block is the tip")
+		vReach("parent")
+	default:
+		vAssert(b.bestChain.Tip() == newBase || b.bestChain.Tip() == sideTip, "on a tie the tip is one of the most-work valid tips")
+	}
+	vAssert(stale.status.KnownInvalid(), "a side block descending from the invalidated block is marked invalid")
+}
